@@ -1,10 +1,26 @@
-import sys,json
+import sys,json,collections
 t=sys.stdin.read()
 i=t.index('\n{')
 print(t[:i])
 d=json.loads(t[i:])
-for x in (d['Inconclusive'] or [])[:5]: print('INCONCLUSIVE:',x)
-for v in (d['Violations'] or [])[:8]: print('VIOLATION:',v['kind'],v['label'],v['msg'],v.get('known_id'),[ (a['name'],a['vals']) for a in v['inputs'] or []]); print(v.get('stack',''))
-for s in (d['Samples'] or [])[:3]: print('SAMPLE', [(a['name'],a['vals']) for a in s['Inputs'] or []], s['Observes'])
-d.pop('Inconclusive');d.pop('Violations');d.pop('Samples')
+for x in (d['Inconclusive'] or [])[:5]: print('INCONCLUSIVE:',x[:1500])
+groups=collections.OrderedDict()
+def inp(v):
+    out=[]
+    for a in v['inputs'] or []:
+        vals=a['vals']
+        if a['kind'] in('bytes','string') and vals is not None:
+            out.append((a['name'],bytes(vals)))
+        else: out.append((a['name'],vals))
+    return out
+for v in (d['Violations'] or []):
+    st=(v.get('stack') or '').strip().split('\n')
+    key=(v['kind'],v['label'],v['msg'][:100],st[0].strip() if st else '')
+    groups.setdefault(key,[]).append(v)
+for k,vs in groups.items():
+    print('VIOLATION x%d:'%len(vs),k)
+    for v in vs[:3]: print('    inputs',inp(v))
+    print('   ', '\n    '.join((vs[0].get('stack') or '').strip().split('\n')[:6]))
+for s in (d['Samples'] or [])[:3]: print('SAMPLE', [(a['name'],a['vals']) for a in s['Inputs']] if s.get('Inputs') else None, s['Observes'])
+for k in ('Inconclusive','Violations','Samples','Instrs'): d.pop(k,None)
 print(d)
